@@ -185,21 +185,28 @@ def qubLoop (P : Problem α) (pr : Params α) : Nat → Iterate α → Nat → N
       qubLoop P pr f (evalPsiHat P (evalProxGradStep P { c with gamma := gl.1, L := gl.2 })) (t + 2) (b + 1)
     else (c, t, b, false)
 
+/-- `prev_x̂.swap(curr->x̂); eval_prox_grad_step(*curr); if (!fixed_lipschitz || need_grad_ψx̂) eval_ψx̂(*curr);`
+    (the old `prev_x̂` lands in `curr->x̂` and is overwritten right away by the prox step). -/
+def firstStep (P : Problem α) (pr : Params α) (s : St α) : Iterate α :=
+  let c1 := evalProxGradStep P { s.curr with xhat := s.prev }
+  if !fixedLip pr || needGradHat pr then evalPsiHat P c1 else c1
+
+/-- oracle calls made by `firstStep` -/
+def firstTick (pr : Params α) (s : St α) : Nat :=
+  s.tick + 1 + (if !fixedLip pr || needGradHat pr then 1 else 0)
+
+/-- `if (need_grad_ψx̂) eval_grad_ψx̂(*curr);` -/
+def withGradHat (P : Problem α) (pr : Params α) (c : Iterate α) : Iterate α :=
+  if needGradHat pr then evalGradPsiHat P c else c
+
 /-- "Proximal gradient step" and "Quadratic upper bound" sections of the loop body:
-    `prev_x̂.swap(curr->x̂); eval_prox_grad_step; [eval_ψx̂]; [eval_grad_ψx̂]; while (…) {…}`. -/
+    `prev_x̂.swap(curr->x̂); eval_prox_grad_step; [eval_ψx̂]; while (…) {…}; [eval_grad_ψx̂]`
+    (∇ψ(x̂) is evaluated once, at the accepted step, after the backtracking loop). -/
 def proxStage (P : Problem α) (pr : Params α) (s : St α) : St α :=
-  -- prev_x̂.swap(curr->x̂): the old prev_x̂ lands in curr->x̂ and is overwritten right away
-  let c0 : Iterate α := { s.curr with xhat := s.prev }
-  let prev := s.curr.xhat
-  let c1 := evalProxGradStep P c0
-  -- `if (!fixed_lipschitz || need_grad_ψx̂) eval_ψx̂(*curr); if (need_grad_ψx̂) eval_grad_ψx̂(*curr);`
-  let c2 := if !fixedLip pr || needGradHat pr then evalPsiHat P c1 else c1
-  let c3 := if needGradHat pr then evalGradPsiHat P c2 else c2
-  let tick := s.tick + 1 + (if !fixedLip pr || needGradHat pr then 1 else 0) +
-    (if needGradHat pr then 1 else 0)
-  let r := qubLoop P pr pr.qubFuel c3 tick s.backtracks
-  { s with curr := r.1, prev := prev, tick := r.2.1, backtracks := r.2.2.1,
-           fuelOut := s.fuelOut || r.2.2.2 }
+  let r := qubLoop P pr pr.qubFuel (firstStep P pr s) (firstTick pr s) s.backtracks
+  { s with curr := withGradHat P pr r.1, prev := s.curr.xhat,
+           tick := r.2.1 + (if needGradHat pr then 1 else 0),
+           backtracks := r.2.2.1, fuelOut := s.fuelOut || r.2.2.2 }
 
 def statusOf (pr : Params α) (k : Nat) (eps : α) (noProgress : Nat) (oot intr : Bool) :
     SolverStatus :=
